@@ -40,7 +40,7 @@ type Body struct {
 	Name   string  `json:"name"`
 	Muts   []Mut   `json:"muts,omitempty"`
 	Rets   []*Expr `json:"rets,omitempty"`
-	Direct bool    `json:"direct,omitempty"` // builtin calls are written inline in the return statement (class builtin-in-multi-return when not first)
+	Direct bool    `json:"direct,omitempty"` // builtin calls are written inline in the return statement (F23 / F07-1 when not first, repaired)
 }
 
 // ---- generation ----
@@ -284,6 +284,7 @@ type nativeEnv struct {
 	quiet int
 	sinc  func(int) int // the script-declared helper as this side reaches it
 	hinc  func(int) int
+	done  chan struct{} // go statements: the callee has returned
 }
 
 func (env *nativeEnv) record(tag string, v reflect.Value) {
@@ -388,7 +389,7 @@ func (env *nativeEnv) evalExpr(e *Expr, target reflect.Type, frames [][]reflect.
 			}
 			args[k] = env.evalExpr(a, pt, frames, sig)
 		}
-		res := f.Call(args)
+		res := goCall(f, args)
 		out.Set(res[e.J])
 	case "callg":
 		x := int(env.evalExpr(e.Args[0], reflect.TypeOf(0), frames, sig).Int())
@@ -399,6 +400,22 @@ func (env *nativeEnv) evalExpr(e *Expr, target reflect.Type, frames [][]reflect.
 		}
 	}
 	return out
+}
+
+// goCall calls f on the argument list as a COMPILED caller does: the arguments beyond the fixed parameters of a variadic
+// function are passed in a new slice, and a nil slice when there is none (reflect.Value.Call would allocate an empty one).
+func goCall(f reflect.Value, args []reflect.Value) []reflect.Value {
+	ft := f.Type()
+	if !ft.IsVariadic() {
+		return f.Call(args)
+	}
+	nf := ft.NumIn() - 1
+	st := ft.In(nf)
+	sl := reflect.Zero(st)
+	if len(args) > nf {
+		sl = reflect.Append(reflect.MakeSlice(st, 0, len(args)-nf), args[nf:]...)
+	}
+	return f.CallSlice(append(append([]reflect.Value{}, args[:nf]...), sl))
 }
 
 // repClass: how a value arrived at the host (observed; compared with the model's argument-preparation table).
